@@ -33,7 +33,15 @@
 (*                flag that decides membership in the priced heap)          *)
 (*   loc          pool.locals                                               *)
 (*   floor        pool.gasPrice                                             *)
-(*   pn[a]        pool.pendingNonces.get(a)                                 *)
+(*   pn[a]        pool.pendingNonces.get(a) = what Nonce(a) returns.  The   *)
+(*                map is TRANSCRIBED, not derived from pend: set(n+1) in    *)
+(*                promoteTx (PromoteSeq), setIfLower(n) in removeTx and     *)
+(*                in both loops of truncatePending (DropHighest), a fresh   *)
+(*                cache falling back to the state nonce in reset, setAll    *)
+(*                (highest pending + 1, absent accounts fall back) at the   *)
+(*                end of a resetting run.  NonceIsNextPending relates it    *)
+(*                to pend; the driver compares it with pool.Nonce(addr)     *)
+(*                after every replayed transition.                          *)
 (*   cn, cb, cg   pool.currentState nonce / balance, pool.currentMaxGas     *)
 (*                (the chain view taken at the last reset)                  *)
 (*   csr          pool.changesSinceReorg                                    *)
@@ -475,7 +483,8 @@ Restart(s) ==
 (*  at the sender's current state nonce"                                                  *)
 GapFreeAcct(s, a) == \A t \in Of(s.pend, a) : TN(t) = s.cn[a] \/ (TN(t) > s.cn[a] /\ AtN(s.pend, a, TN(t) - 1) # {})
 PendingGapFree(s) == \A a \in Accts : GapFreeAcct(s, a)
-SoundAcct(s, a) == GapFreeAcct(s, a) /\ s.pn[a] = s.cn[a] + Cardinality(Of(s.pend, a))
+SoundAcct(s, a) == /\ GapFreeAcct(s, a) /\ s.pn[a] = s.cn[a] + Cardinality(Of(s.pend, a))
+                   /\ s.pn[a] = IF Of(s.pend, a) # {} THEN MaxN(Of(s.pend, a)) + 1 ELSE s.cn[a]
 (* "every transaction is individually affordable (value plus maximum fee)"                *)
 EachAffordable(s) == \A t \in s.pend : Cost(t) <= s.cb[TA(t)]
 (* "and fits the block gas limit"                                                         *)
@@ -490,6 +499,10 @@ IndexedExactlyOnce(s) == /\ All(s) = s.pend \cup s.queue /\ s.allR \cap s.allL =
 (* "already-mined ... transactions are gone" (replaced ones: OnePerNonce)                 *)
 MinedGone(s) == \A t \in All(s) \cup s.pend \cup s.queue : TN(t) >= s.cn[TA(t)]
 (* Nonce(addr) is the first nonce the pool does not offer                                 *)
+(* the virtual nonce is one above the highest offered nonce, or the state nonce when      *)
+(* nothing is offered.  (AS IMPLEMENTED it fails after a reorganisation has left a hole,   *)
+(* see FixGapAfterReorg: truncating the holed list sets it to the cut nonce.)              *)
+NonceIsNextPending(s) == \A a \in Accts : s.pn[a] = IF Of(s.pend, a) # {} THEN MaxN(Of(s.pend, a)) + 1 ELSE s.cn[a]
 NonceTracksPending(s) == \A a \in Accts : GapFreeAcct(s, a) => s.pn[a] = s.cn[a] + PLen(s, a)
 (* everything queued is payable too (a by-product of promoteExecutables)                  *)
 QueuedValid(s) == \A t \in s.queue : Cost(t) <= s.cb[TA(t)] /\ GasOf(TK(t)) <= s.cg
